@@ -1,18 +1,22 @@
 import CppUModel.Base.Proto
 import CppUModel.Model.Failable
 import CppUModel.Spec.Failable
+import CppUModel.Gen.FailableCode
+import CppUModel.Spec.FailableGen
 /-!
 Driver for C15: replays harness traces through the model of `FailableMemoryAllocator` and of the
 C-level malloc countdown, and judges the implementation's observations with the property's
 specification oracle: `Failable.designatedB` / `Failable.unfired` evaluated on the HISTORY of calls
-(no allocator state), and a textbook shadow of the countdown.  Imports Base/Model/Spec/Gen only.
+(no allocator state), and a textbook shadow of the countdown.  The MODEL side is executed by the definitions
+regenerated from the current source (`Gen/FailableCode.lean`; proved equal to the hand model in Props/C15), so the
+correspondence run also validates the translator.  Imports Base/Model/Spec/Gen only.
 -/
 open Failable
 
 structure DState where
   mode : String := ""
-  fa   : State := init
-  c    : CState := cinit
+  fa   : State := Gen.Failable.init
+  c    : CState := Gen.Failable.cinit
 
 def idsLine (tag : String) (ids : List Nat) : String :=
   if ids.isEmpty then tag ++ " -" else tag ++ " " ++ " ".intercalate (ids.map toString)
@@ -22,21 +26,36 @@ def renderCheck : CheckResult → String
   | .neverDoneAt f l => s!"check fail at {f} {l}"
   | .neverDoneNumber n => s!"check fail number {n}"
 
+/-- the exact failure text (bytes, hex) as a second observation line -/
+def renderCheckText (r : CheckResult) : List String :=
+  match checkText r with
+  | none => []
+  | some t => ["text " ++ Proto.hex t.toUTF8.toList]
+
 def optHex : Option (List UInt8) → String
   | none => "ret null"
   | some bs => "ret " ++ Proto.hex bs
 
+def firedLines (fired : List Node) : List String :=
+  if fired.isEmpty then [] else [idsLine "fired" (fired.map (·.id))]
+
+/-- the C-level calls of mode fc run at "<unknown>":0 on top of the installed failable allocator -/
+def overStep (d : DState) (r : MallocResult) (ret : String) : DState × List String :=
+  ({ d with c := r.st.c, fa := r.st.fa }, [ret] ++ firedLines r.fired ++ [s!"count {(Gen.Failable.getCount r.st.c).2}"])
+
 def modelStep (d : DState) (op : List String) (_obs : List (List String)) : DState × List String :=
   match op with
-  | ["mode", m] => ({ d with mode := m }, [])
+  | ["mode", m] =>
+    -- mode fc: the failable allocator is the current malloc allocator for the whole case
+    ({ d with mode := m, c := if m == "fc" then { d.c with cur := .failable } else d.c }, [])
   | ["skip"] => (d, [])
   | ["failnum", n] =>
     match n.toInt? with
-    | some n => ({ d with fa := failAllocNumber d.fa n }, [s!"node {d.fa.nextId}"])
+    | some n => ({ d with fa := Gen.Failable.failAllocNumber default d.fa n }, [s!"node {d.fa.nextId}"])
     | none => (d, ["bad-op"])
   | ["failat", n, f, l] =>
     match n.toInt?, l.toNat? with
-    | some n, some l => ({ d with fa := failNthAllocAt d.fa n f l }, [s!"node {d.fa.nextId}"])
+    | some n, some l => ({ d with fa := Gen.Failable.failNthAllocAt default d.fa n f l }, [s!"node {d.fa.nextId}"])
     | _, _ => (d, ["bad-op"])
   | ["alloc", f, l, fam] =>
     match l.toNat? with
@@ -44,55 +63,79 @@ def modelStep (d : DState) (op : List String) (_obs : List (List String)) : DSta
       -- the malloc family goes through cpputest_malloc_location (countdown, malloc_count)
       let viaMalloc := fam == "m" || fam == "M"
       let throws := ["n", "a", "p", "q", "W"].contains fam
-      let c' := if viaMalloc then mallocState d.c else d.c
-      if viaMalloc && mallocNull d.c then ({ d with c := c' }, ["ret null"])
+      if d.mode == "fc" && viaMalloc then
+        let r := genMallocOver { c := d.c, fa := d.fa } f l
+        ({ d with c := r.st.c, fa := r.st.fa },
+         [if r.isNull then "ret null" else "ret ok"] ++ firedLines r.fired)
       else
-        let fired := (allocFired d.fa f l).map (·.id)
-        let fails := allocFails d.fa f l
+      let c' := if viaMalloc then Gen.Failable.mallocState d.c else d.c
+      if viaMalloc && Gen.Failable.mallocNull d.c then ({ d with c := c' }, ["ret null"])
+      else
+        let r := Gen.Failable.allocMemory d.fa f l
+        let fired := r.2.1.map (·.id)
+        let fails := r.2.2
         let ret := if fails then (if throws then "ret throw" else "ret null") else "ret ok"
-        ({ d with fa := allocState d.fa f l, c := c' },
+        ({ d with fa := r.1, c := c' },
          [ret] ++ (if fired.isEmpty then [] else [idsLine "fired" fired]))
     | none => (d, ["bad-op"])
-  | ["check"] => (d, [renderCheck (check d.fa)])
-  | ["clear"] => ({ d with fa := clear d.fa }, [idsLine "freed" ((clearFreed d.fa).map (·.id))])
+  | ["check"] => (d, [renderCheck (Gen.Failable.check d.fa)] ++ renderCheckText (Gen.Failable.check d.fa))
+  | ["clear"] => ({ d with fa := Gen.Failable.clear d.fa }, [idsLine "freed" ((Gen.Failable.clearFreed d.fa).map (·.id))])
   -- C level
   | ["cd", n] =>
     match n.toInt? with
-    | some n => ({ d with c := setCountdown d.c n }, [])
+    | some n => ({ d with c := Gen.Failable.setCountdown d.c n }, [])
     | none => (d, ["bad-op"])
-  | ["oom"] => ({ d with c := setOutOfMemory d.c }, [])
-  | ["notoom"] => ({ d with c := setNotOutOfMemory d.c }, [])
-  | ["creset"] => ({ d with c := { d.c with count := 0 } }, ["count 0"])
+  | ["oom"] => ({ d with c := Gen.Failable.setOutOfMemory d.c }, [])
+  | ["notoom"] => ({ d with c := Gen.Failable.setNotOutOfMemory d.c }, [])
+  | ["creset"] =>
+    let c' := Gen.Failable.countReset d.c
+    ({ d with c := c' }, [s!"count {(Gen.Failable.getCount c').2}"])
   | ["crealloc", what, _] =>
     let r := match reallocResult d.c (what == "old") with
       | .ok => "ret ok"
       | .mismatch => "failure mismatch"
       | .crash => "crash"
-    ({ d with c := cstep d.c (.realloc (what == "old")) }, [r, s!"count {d.c.count}"])
+    ({ d with c := Gen.Failable.reallocState d.c }, [r, s!"count {(Gen.Failable.getCount d.c).2}"])
   | ["cfree", _] =>
     let r := match freeResult d.c with
       | .ok => "ret ok"
       | _ => "failure mismatch"
-    ({ d with c := cstep d.c .free }, [r, s!"count {d.c.count}"])
+    ({ d with c := Gen.Failable.freeState d.c }, [r, s!"count {(Gen.Failable.getCount d.c).2}"])
   | ["cmalloc", _] =>
-    let c' := mallocState d.c
-    ({ d with c := c' }, [if mallocNull d.c then "ret null" else "ret ok", s!"count {c'.count}"])
+    if d.mode == "fc" then
+      let r := genMallocOver { c := d.c, fa := d.fa } "<unknown>" 0
+      overStep d r (if r.isNull then "ret null" else "ret ok")
+    else
+    let c' := Gen.Failable.mallocState d.c
+    ({ d with c := c' }, [if Gen.Failable.mallocNull d.c then "ret null" else "ret ok", s!"count {(Gen.Failable.getCount c').2}"])
   | ["cstrdup", hx] =>
     match Proto.unhex? hx with
     | some bs =>
-      let r := strdup d.c bs
+      if d.mode == "fc" then
+        let r := genStrdupOver { c := d.c, fa := d.fa } bs "<unknown>" 0
+        overStep d r.1 (optHex r.2)
+      else
+      let r := Gen.Failable.strdup d.c bs
       ({ d with c := r.1 }, [optHex r.2, s!"count {r.1.count}"])
     | none => (d, ["bad-op"])
   | ["cstrndup", hx, n] =>
     match Proto.unhex? hx, n.toNat? with
     | some bs, some n =>
-      let r := strndup d.c bs n
+      if d.mode == "fc" then
+        let r := genStrndupOver { c := d.c, fa := d.fa } bs n "<unknown>" 0
+        overStep d r.1 (optHex r.2)
+      else
+      let r := Gen.Failable.strndup d.c bs n
       ({ d with c := r.1 }, [optHex r.2, s!"count {r.1.count}"])
     | _, _ => (d, ["bad-op"])
   | ["ccalloc", a, b] =>
     match a.toNat?, b.toNat? with
     | some a, some b =>
-      let r := calloc d.c a b
+      if d.mode == "fc" then
+        let r := genCallocOver { c := d.c, fa := d.fa } a b "<unknown>" 0
+        overStep d r.1 (match r.2 with | none => "ret null" | some z => s!"ret zeros {z.length}")
+      else
+      let r := Gen.Failable.calloc d.c a b
       ({ d with c := r.1 },
        [match r.2 with | none => "ret null" | some z => s!"ret zeros {z.length}", s!"count {r.1.count}"])
     | _, _ => (d, ["bad-op"])
@@ -138,6 +181,13 @@ structure Shadow where
   oom  : Bool := false
   cd   : Option (Int × Nat) := none
   cnt  : Nat := 0
+  /-- mode fc: is the failable allocator still the allocator the malloc path asks (it is until
+      `cpputest_malloc_set_not_out_of_memory` is called while no out-of-memory is simulated, which resets the
+      malloc allocator to the default one) -/
+  installed : Bool := false
+  /-- the failable allocator WAS installed and the malloc allocator has been reset under it: which allocator
+      answers from here on is outside the property; the oracle keeps judging the C level only -/
+  detached : Bool := false
 
 def Shadow.allocating (sh : Shadow) : Shadow × Bool :=
   -- one allocating call under the countdown: the k-th call after `cd n` fails iff 0 ≤ n ≤ k
@@ -152,10 +202,44 @@ def checkCount (sh : Shadow) (o : Proto.Op) : Except String Unit := do
   if obsWith "count" o.obs != some [toString sh.cnt] then
     throw s!"malloc_count is {(obsWith "count" o.obs).getD []}, the number of allocating calls since the last reset is {sh.cnt}"
 
+/-- an allocation that REACHES the failable allocator at `(f, l)`: it fails iff it is designated (judged on the
+    history of the calls that reached the allocator), and consumes exactly the designations that select it;
+    `null` = the implementation's result was NULL / bad_alloc -/
+def judgeFailable (sh : Shadow) (f : String) (l : Nat) (null : Bool) (o : Proto.Op) : Except String Shadow := do
+  let e := epoch sh.hist
+  let want := designatedB sh.hist f l
+  let baseId := countDesig sh.hist - countDesig e
+  let wantIds := sortNat (firingIds f l (allocs e) baseId e)
+  let gotIds := sortNat (parseIds ((obsWith "fired" o.obs).getD []))
+  if !null then
+    if want then throw s!"allocation at {f}:{l} (global index {allocs e + 1}) is designated but succeeded"
+    if !gotIds.isEmpty then throw s!"a designation was consumed by an allocation that succeeded"
+  else
+    if !want then throw s!"allocation at {f}:{l} (global index {allocs e + 1}) is not designated but failed"
+    if gotIds != wantIds then throw s!"failing allocation consumed designations {gotIds}, the designated ones are {wantIds}"
+  return { sh with hist := sh.hist ++ [.alloc f l] }
+
+/-- one call of the malloc path in mode fc at `(f, l)`: the countdown / simulated out-of-memory decides first (then the
+    failable allocator is not even asked: nothing is consumed, its indices do not move); otherwise the installed
+    failable allocator decides; returns the shadow and whether the call has to return NULL -/
+def judgeOver (sh : Shadow) (f : String) (l : Nat) (null : Bool) (o : Proto.Op) : Except String Shadow := do
+  let (sh', failC) := sh.allocating
+  if failC then
+    if !null then throw "allocation succeeded under simulated out-of-memory"
+    if (obsWith "fired" o.obs).isSome then throw "a designation of the failable allocator was consumed by an allocation that the simulated out-of-memory refused"
+    return sh'
+  else if sh'.detached then return sh'
+  else if sh'.installed then judgeFailable sh' f l null o
+  else
+    if null then throw "allocation failed although neither the countdown nor an installed failable allocator designates it"
+    return sh'
+
 def specStep (sh : Shadow) (o : Proto.Op) : Except String Shadow := do
   let ret := obsWith "ret" o.obs
+  if sh.detached && ["failnum", "failat", "check", "clear"].contains (o.op.headD "") then return sh
+  if sh.detached && o.op.headD "" == "alloc" && !(["m", "M"].contains (o.op.getLastD "")) then return sh
   match o.op with
-  | ["mode", m] => return { sh with mode := m }
+  | ["mode", m] => return { sh with mode := m, installed := m == "fc" }
   | ["skip"] => return sh
   | ["failnum", n] =>
     let some n := n.toInt? | throw "bad failnum"
@@ -168,6 +252,12 @@ def specStep (sh : Shadow) (o : Proto.Op) : Except String Shadow := do
     return { sh with hist := sh.hist ++ [.failAt n f l] }
   | ["alloc", f, l, fam] =>
     let some l := l.toNat? | throw "bad alloc"
+    if sh.mode == "fc" && (fam == "m" || fam == "M") then
+      match ret with
+      | some ["ok"] => judgeOver sh f l false o
+      | some ["null"] => judgeOver sh f l true o
+      | _ => throw "allocation without result"
+    else
     let e := epoch sh.hist
     let want := designatedB sh.hist f l
     let baseId := countDesig sh.hist - countDesig e
@@ -215,7 +305,10 @@ def specStep (sh : Shadow) (o : Proto.Op) : Except String Shadow := do
     else if n < 0 then return { sh with cd := none }
     else return { sh with cd := some (n, 0) }
   | ["oom"] => return { sh with oom := true }
-  | ["notoom"] => return { sh with oom := false, cd := none }
+  | ["notoom"] =>
+    -- called while nothing is simulated, it resets the malloc allocator to the default one
+    return { sh with oom := false, cd := none, installed := sh.installed && sh.oom,
+                     detached := sh.detached || (sh.installed && !sh.oom) }
   | ["creset"] => return { sh with cnt := 0 }
   | ["crealloc", _, _] =>
     -- realloc is outside the property (and outside the countdown): only malloc_count is judged
@@ -225,6 +318,13 @@ def specStep (sh : Shadow) (o : Proto.Op) : Except String Shadow := do
     checkCount sh o
     return sh
   | ["cmalloc", _] =>
+    if sh.mode == "fc" then
+      let sh' ← match ret with
+        | some ["ok"] => judgeOver sh "<unknown>" 0 false o
+        | some ["null"] => judgeOver sh "<unknown>" 0 true o
+        | _ => throw "malloc without result"
+      checkCount sh' o
+      return sh'
     let (sh', fail) := sh.allocating
     match ret with
     | some ["null"] => if !fail then throw "malloc failed outside the simulated out-of-memory"
@@ -234,6 +334,15 @@ def specStep (sh : Shadow) (o : Proto.Op) : Except String Shadow := do
     return sh'
   | ["cstrdup", hx] =>
     let some bs := Proto.unhex? hx | throw "bad cstrdup"
+    if sh.mode == "fc" then
+      let sh' ← match ret with
+        | some ["null"] => judgeOver sh "<unknown>" 0 true o
+        | some [r] =>
+          if Proto.unhex? r != some (bs ++ [0]) then throw "strdup: wrong content"
+          judgeOver sh "<unknown>" 0 false o
+        | _ => throw "strdup without result"
+      checkCount sh' o
+      return sh'
     let (sh', fail) := sh.allocating
     match ret with
     | some ["null"] => if !fail then throw "strdup returned NULL although its allocation was not designated to fail"
@@ -246,6 +355,15 @@ def specStep (sh : Shadow) (o : Proto.Op) : Except String Shadow := do
   | ["cstrndup", hx, n] =>
     let some bs := Proto.unhex? hx | throw "bad cstrndup"
     let some n := n.toNat? | throw "bad cstrndup"
+    if sh.mode == "fc" then
+      let sh' ← match ret with
+        | some ["null"] => judgeOver sh "<unknown>" 0 true o
+        | some [r] =>
+          if Proto.unhex? r != some (bs.take n ++ [0]) then throw "strndup: wrong content"
+          judgeOver sh "<unknown>" 0 false o
+        | _ => throw "strndup without result"
+      checkCount sh' o
+      return sh'
     let (sh', fail) := sh.allocating
     match ret with
     | some ["null"] => if !fail then throw "strndup returned NULL although its allocation was not designated to fail"
@@ -262,6 +380,15 @@ def specStep (sh : Shadow) (o : Proto.Op) : Except String Shadow := do
       if ret != some ["null"] then throw "calloc with an overflowing product did not return NULL"
       checkCount sh o
       return sh
+    if sh.mode == "fc" then
+      let sh' ← match ret with
+        | some ["null"] => judgeOver sh "<unknown>" 0 true o
+        | some ["zeros", z] =>
+          if z.toNat? != some (a * b) then throw "calloc: wrong size"
+          judgeOver sh "<unknown>" 0 false o
+        | _ => throw "calloc: result not NULL and not zero filled"
+      checkCount sh' o
+      return sh'
     let (sh', fail) := sh.allocating
     match ret with
     | some ["null"] => if !fail then throw "calloc returned NULL although its allocation was not designated to fail"
